@@ -124,3 +124,53 @@ Example C01_complete_premises_nested :
   content_id tohex ex_ct2 current ex_a2 = content_id tohex ex_ct2 current ex_b2 /\
   nprops ex_a2 <> nprops ex_b2.
 Proof. exact complete_premises_nested. Qed.
+
+(* non-vacuity witnesses *)
+(* the instance (Proofs/C01Witness.v): w1_ct = Leaf (a comparable and a non-comparable property), Pair (a property, an
+   optional, a mandatory and a tuple child), Sub (a subclass of Pair: one more property `tags`, one more child);
+   w1_ct2 = the same with every declaration list permuted; six-node / four-level trees w1_sub ..; digest tohex *)
+From Oak Require Import Proofs.C01Witness.
+(* C01_indep_field_order *)
+Theorem C01_ex_field_order :
+  v_stable current = true
+  /\ (forall c, Permutation (fields_of w1_ct c) (fields_of w1_ct2 c))
+  /\ (forall c f, In f (fields_of w1_ct c) -> builtin f = false)
+  /\ map fd_name (fields_of w1_ct (lit "Sub")) = map lit ["kind"; "left"; "one"; "items"; "tags"; "extra"]%string
+  /\ map fd_name (fields_of w1_ct2 (lit "Sub")) = map lit ["items"; "kind"; "one"; "left"; "extra"; "tags"]%string
+  /\ content_id tohex w1_ct current w1_a = content_id tohex w1_ct2 current w1_a.
+Proof. exact w1_field_order. Qed.
+(* C01_complete_framing, C01_complete_framing_strong, C01_cid_determines_class, C01_is_equal_complete_framing,
+   C01_complete_nested, C01_cid_iff_ceq, C01_is_equal_iff_ceq: two different objects (a frozenset stored in two orders,
+   different non-comparable notes) with one content id; and a third tree with another one (both sides of the iff) *)
+Theorem C01_ex_complete :
+  (forall x y, tohex x = tohex y -> x = y) /\ (forall x, forallb is_hex (tohex x) = true) /\ names_ok w1_ct
+  /\ wf_node w1_ct w1_a = true /\ wf_node w1_ct w1_b = true /\ node_values_ok w1_ct w1_a /\ node_values_ok w1_ct w1_b
+  /\ node_deep w1_ct ex_et w1_a /\ node_deep w1_ct ex_et w1_b
+  /\ cls w1_a = cls w1_b /\ content_id tohex w1_ct current w1_a = content_id tohex w1_ct current w1_b
+  /\ is_equal tohex w1_ct current w1_a w1_b = true
+  /\ w1_a <> w1_b /\ nprops w1_a <> nprops w1_b
+  /\ wf_node w1_ct w1_e = true /\ node_values_ok w1_ct w1_e /\ node_deep w1_ct ex_et w1_e
+  /\ content_id tohex w1_ct current w1_a <> content_id tohex w1_ct current w1_e.
+Proof. exact w1_complete. Qed.
+(* C01_complete_scalar *)
+Theorem C01_ex_complete_scalar :
+  names_ok w1_ct /\ wf_node w1_ct w1_sa = true /\ wf_node w1_ct w1_sb = true
+  /\ node_values_ok w1_ct w1_sa /\ node_values_ok w1_ct w1_sb
+  /\ node_scalar w1_ct ex_et w1_sa /\ node_scalar w1_ct ex_et w1_sb
+  /\ content_id tohex w1_ct current w1_sa = content_id tohex w1_ct current w1_sb /\ w1_sa <> w1_sb
+  /\ wf_node w1_ct w1_se = true /\ node_values_ok w1_ct w1_se /\ node_scalar w1_ct ex_et w1_se
+  /\ content_id tohex w1_ct current w1_sa <> content_id tohex w1_ct current w1_se.
+Proof. exact w1_complete_scalar. Qed.
+(* C01_render_inj_scalar, C01_render_inj_nested: for scalars the premises force the very same value (shown: an enum
+   member; int 1 and True differ in tag and rendering); for frozensets they hold of two different values *)
+Theorem C01_ex_render :
+  scalar ex_et ex_red /\ tytag ex_red = tytag ex_red /\ stable_str ex_red = stable_str ex_red
+  /\ scalar ex_et (VInt 1) /\ scalar ex_et (VBool true) /\ stable_str (VInt 1) <> stable_str (VBool true)
+  /\ tytag (VInt 1) <> tytag (VBool true)
+  /\ deep ex_et w1_t1 /\ deep ex_et w1_t2 /\ tytag w1_t1 = tytag w1_t2 /\ stable_str w1_t1 = stable_str w1_t2
+  /\ w1_t1 <> w1_t2
+  /\ deep ex_et w1_t4 /\ tytag w1_t1 = tytag w1_t4 /\ stable_str w1_t1 <> stable_str w1_t4.
+Proof. exact w1_render. Qed.
+(* C01_str_repr_prefix_free: its premise holds (by its conclusion, only) of equal strings followed by equal rests *)
+Theorem C01_ex_prefix : str_repr w1_s ++ lit ", 'z')" = str_repr w1_s ++ lit ", 'z')" /\ length (str_repr w1_s) = 11.
+Proof. exact w1_prefix. Qed.
